@@ -30,7 +30,14 @@ PROP = {
             "1..max(10240, limit, 1 GiB) and newSendDataWriter's make does not panic. "
             "handshake: the real client (child process, RLIMIT_AS) and the real trz / tsz transfer 400 KB of incompressible data while one "
             "member of the CFG or ACT line is replaced on the wire by -1, 0, 1, +-2^31, +-2^62, +-2^63, a fraction, a string, null; oracle: "
-            "no crash text, no recovered panic, both sides end within 25 s, client RSS < 600 MB",
+            "no crash text, no recovered panic, both sides end within 25 s, client RSS < 600 MB; in the same group a real relay (child process) "
+            "between a scripted client and server gets 20 kinds of hostile line in place of the ACT or the CFG: it must survive and pass bytes "
+            "both ways again. "
+            "Round 3: the acknowledgement goroutine runs in a child with chunk times scripted through trzszAck.begin over every interval between "
+            "the thresholds and whole seconds (c12_bufevo_ms, a death of the child is bufsize-time-crash:<ms>); archive entries no honest sender "
+            "produces (directory with a size, sizes <= 0 / 2^62, unknown path id, refused names) through the real recvFiles path and through the "
+            "real writer directly; the line splitters of recvCheck and of the relay against gd_line_split; the progress display under a scripted "
+            "clock",
     "trusted": ["modelled, not verified: encoding/json, zlib, zstd, base64 and the Go runtime on malformed input (exercised by the hostile group, not proved)",
                 "goroutines without recover are a structural fact (Gen/Skel_guards.recover_sites), not a theorem",
                 "totality of the progress display for unguarded steps and sizes is C20's theorem"],
